@@ -57,7 +57,107 @@ fn requests() -> Vec<Req> {
     out
 }
 
+// ---- independent applicability of the pool's rules (not taken from the real matcher) ------------
+
+fn host_of(url: &str) -> &str {
+    url.split("://").nth(1).unwrap_or("").split(|c| c == '/' || c == '?').next().unwrap_or("")
+}
+fn site(host: &str) -> String {
+    let labels: Vec<&str> = host.split('.').collect();
+    labels[labels.len().saturating_sub(2)..].join(".")
+}
+fn covers(domain: &str, host: &str) -> bool {
+    host == domain || host.ends_with(&format!(".{}", domain))
+}
+
+/// (directive, is_exception) if the csp rule applies to the request, by the option semantics.
+fn csp_rule_applies(rule: &str, url: &str, src: &str, tags: &[String]) -> Option<(Option<String>, bool)> {
+    let (exc, r) = match rule.strip_prefix("@@") {
+        Some(r) => (true, r),
+        None => (false, rule),
+    };
+    let (pat, opts) = r.rsplit_once('$')?;
+    let mut directive = None;
+    let mut is_csp = false;
+    let host = host_of(url);
+    let src_host = host_of(src);
+    for o in opts.split(',') {
+        if o == "csp" {
+            is_csp = true;
+        } else if let Some(d) = o.strip_prefix("csp=") {
+            is_csp = true;
+            directive = Some(d.to_string());
+        } else if let Some(d) = o.strip_prefix("domain=") {
+            let (neg, d) = match d.strip_prefix('~') {
+                Some(d) => (true, d),
+                None => (false, d),
+            };
+            let inside = !src_host.is_empty() && covers(d, src_host);
+            if neg == inside || (!neg && src_host.is_empty()) {
+                return None;
+            }
+        } else if let Some(t) = o.strip_prefix("tag=") {
+            if !tags.iter().any(|x| x == t) {
+                return None;
+            }
+        } else if o == "3p" || o == "1p" {
+            let third = src_host.is_empty() || site(host) != site(src_host);
+            if (o == "3p") != third {
+                return None;
+            }
+        }
+    }
+    if !is_csp {
+        return None;
+    }
+    let pattern_ok = if let Some(h) = pat.strip_prefix("||").and_then(|p| p.strip_suffix('^')) {
+        covers(h, host)
+    } else if let Some(p) = pat.strip_prefix('|') {
+        url.starts_with(p)
+    } else {
+        pat.is_empty() || url.contains(pat)
+    };
+    if !pattern_ok {
+        return None;
+    }
+    Some((directive, exc))
+}
+
+/// Compares the engine's CSP answer with the set algebra over the independently applicable rules.
+fn check_independent(items: &[&str], reqs: &[Req], l: &mut Local) {
+    let mut e = vh::netsweep::build_engine(items, &[], false, false);
+    let tags_present = vh::alpha::tags_in(items);
+    for tagset in vh::util::subsets_of(&tags_present) {
+        let refs: Vec<&str> = tagset.iter().map(|s| s.as_str()).collect();
+        e.use_tags(&refs);
+        for rq in reqs {
+            if !rq.req.is_supported {
+                continue;
+            }
+            let hits: Vec<(Option<String>, bool)> = items.iter().filter_map(|r| csp_rule_applies(r, &rq.url, &rq.source, &tagset)).collect();
+            let exp = vh::oracle::netspec::spec_csp(&rq.req, &hits);
+            let got = vh::util::catch(|| vh::net::csp_set(&e.get_csp_directives(&rq.req)));
+            l.compared += 1;
+            l.transitions += 1;
+            if got.as_ref().ok() != Some(&exp) {
+                l.mismatch(vh::Mismatch {
+                    sig: "c15.csp.rule-applicability".into(),
+                    what: format!("list {:?} tags {:?} request ({}, {}, {}): option semantics give {:?}, engine {:?}", items, tagset, rq.url, rq.source, rq.ty, exp, got),
+                    case: serde_json::json!({"rules": items, "hosts": [], "tags": tagset, "url": rq.url, "source": rq.source, "type": rq.ty, "independent": true}),
+                    size: (items.len() * 10000 + rq.url.len() * 4 + rq.source.len()) as u64,
+                });
+            }
+        }
+    }
+}
+
 fn replay(case: &Value, l: &mut Local) {
+    if case["independent"].as_bool() == Some(true) {
+        let rules: Vec<String> = case["rules"].as_array().map(|a| a.iter().filter_map(|v| v.as_str().map(|s| s.to_string())).collect()).unwrap_or_default();
+        let items: Vec<&str> = rules.iter().map(|s| s.as_str()).collect();
+        check_independent(&items, &requests(), l);
+        return;
+    }
     vh::netsweep::replay_case("c15", case, l, false);
 }
 
@@ -74,6 +174,11 @@ fn check(ctx: &Ctx) -> i32 {
         let items: Vec<(&str, bool)> = idx.iter().map(|&j| (POOL[j], false)).collect();
         let sample = l.samples.len() < 2 && (i + ctx.seed) % 1009 == 5;
         vh::netsweep::check_list("c15", &items, &reqs, l, sample, false);
+        // lists of <= 2 rules are also checked against the fully independent oracle
+        if idx.len() <= 2 {
+            let plain: Vec<&str> = idx.iter().map(|&j| POOL[j]).collect();
+            check_independent(&plain, &reqs, l);
+        }
     });
     ctx.finish(
         "model_checking",
